@@ -12,7 +12,9 @@ RULE = ("series of 2..5 frames of arc/line tissues in which the junctions of the
 TRUSTED = ["theorem equilibrium_solves_augmented (Proofs/CertProofs.v, with b = M T) and zero_residual_minimiser_unique; velocity "
            "placement and finite differences are C13's theorems; the displacement field is generated from the implementation's own "
            "force matrix of the inference frame (so the tangent rule, incl. known finding D1, cancels out)"]
-ASSUMPTIONS = ["tolerance implied by the three-decimal rounding of the velocity term: 2 * |pinv(augmented matrix)|_inf * 5e-4 (x10 for method='lsq')"]
+ASSUMPTIONS = ["tolerance implied by the three-decimal rounding of the right-hand side of the system the back-end receives (the augmented system; for 'lsq_linear' "
+               "the bordered normal system, whose right-hand side M^T b is what is rounded): 2 * |pinv(that matrix)|_inf * 5e-4 (x10 for method='lsq'; "
+               "plus 1e-4 / sigma_min for 'lsq_linear', the residual scipy may leave at termination)"]
 TESTED_NOT_PROVED = ["the end-to-end recovery is evaluated by the oracle; the rounding perturbation bound is used as a tolerance, not proved"]
 IMPORTS = "From Forsys Require Import Model.CaseUtil.\n"
 
@@ -34,6 +36,18 @@ def swap_ids(spec, a, b):
     if "maps" in spec:
         out["maps"] = dict(spec["maps"], v={k: g(v) for k, v in spec["maps"]["v"].items()})
     return out
+
+
+def rounding_tolerance(A_s, method):
+    """what the three-decimal rounding of the right-hand side can do to the solution of the system the back-end actually receives (for
+    'lsq_linear' that is the bordered normal system, whose right-hand side M^T b is what gets rounded): |dx|_inf <= |pinv(A_s)|_inf * 5e-4,
+    doubled; x10 for lmfit's termination; plus the residual scipy's lsq_linear may leave at termination (c01: eps_res) over sigma_min"""
+    tol = 2 * float(np.max(np.sum(np.abs(np.linalg.pinv(A_s)), axis=1))) * 5e-4 + 1e-6
+    if method == "lsq":
+        tol *= 10
+    if method == "lsq_linear":
+        tol += 1e-4 / float(np.linalg.svd(A_s, compute_uv=False)[-1])
+    return tol
 
 
 def check_case(res, base, rng, nframes, where, method, label, zero_ids, presolve=False):
@@ -118,10 +132,13 @@ def check_case(res, base, rng, nframes, where, method, label, zero_ids, presolve
             kw = {"b_matrix": "velocity", "allow_negatives": False}
             if method:
                 kw["method"] = method
-            f.solve_stress(when=where, **kw)
+            with impl.capture_solvers() as rec:
+                f.solve_stress(when=where, **kw)
     except Exception as ex:  # noqa
         res.fail("oracle", f"dynamic inference raised {type(ex).__name__}: {str(ex)[:80]}", replay)
         return
+    solved = [c_ for c_ in rec.calls if c_.get("x") is not None and c_.get("A") is not None]
+    A_s = np.array(solved[-1]["A"], dtype=float) if solved else A
     # tracking sanity (C12's subject): if the tracker lost a junction the case is not judged here
     if last:
         mp = f.mesh.mapping[where - 1] or {}
@@ -133,11 +150,7 @@ def check_case(res, base, rng, nframes, where, method, label, zero_ids, presolve
     got = np.array([be.tension for be in frames[where].internal_big_edges])
     cols = [list(e) for e in f.force_matrices[where].big_edges_to_use]
     # perturbation of the least-squares solution by the rounding of b to three decimals: |dx|_inf <= |pinv(A)|_inf * 5e-4
-    tol = 2 * float(np.max(np.sum(np.abs(np.linalg.pinv(A)), axis=1))) * 5e-4 + 1e-6
-    if method == "lsq":
-        tol *= 10
-    if method == "lsq_linear":
-        tol += 1e-4 / float(sv[-1])      # residual left by scipy's lsq_linear at termination (see c01: eps_res), over sigma_min
+    tol = rounding_tolerance(A_s, method)
     err = float(np.max(np.abs(got - T))) if len(got) == len(T) else float("inf")
     res.case((tuple(tuple(x[1:]) for x in cur["vertices"][:4]), nframes, where, method), nontrivial=M.shape[1] >= 6)
     res.count(f"method={method or 'default'}")
@@ -210,13 +223,14 @@ def replay(res, obj):
         kw = {"b_matrix": "velocity", "allow_negatives": False}
         if inp["method"]:
             kw["method"] = inp["method"]
-        f.solve_stress(when=w, **kw)
+        with impl.capture_solvers() as rec:
+            f.solve_stress(when=w, **kw)
     got = np.array([be.tension for be in frames[w].internal_big_edges])
     T = np.array(inp["T"])
     M = np.array(f.force_matrices[w].matrix)
     A = np.vstack([np.hstack([M, np.ones((M.shape[0], 1))]), np.hstack([np.ones(M.shape[1]), [0.0]])])
-    sv = np.linalg.svd(A, compute_uv=False)
-    tol = 10 * 5e-4 * math.sqrt(A.shape[0]) / sv[-1] * (10 if inp["method"] == "lsq" else 1)
+    solved = [c_ for c_ in rec.calls if c_.get("x") is not None and c_.get("A") is not None]
+    tol = rounding_tolerance(np.array(solved[-1]["A"], dtype=float) if solved else A, inp["method"])
     res.case(("replay",), True)
     if len(got) != len(T) or float(np.max(np.abs(got - T))) > tol:
         res.fail("oracle", f"replay: max error {float(np.max(np.abs(got - T))) if len(got) == len(T) else 'n/a'} > {tol:.2g}", inp)
